@@ -133,12 +133,14 @@ def call_irving(P1, P2, V1, V2, zero=True, with_profiles=True, rank_dtype=None):
     rank_dtype = rank_dtype or np.int64
     from socialchoicekit.deterministic_matching import Irving
     from socialchoicekit.profile_utils import StrictCompleteProfile, IntegerValuationProfile
-    v1 = IntegerValuationProfile.of(np.array(V1, dtype=np.int64))
-    v2 = IntegerValuationProfile.of(np.array(V2, dtype=np.int64))
+    from harness.common import persist, persist_rule
+    v1 = persist("smV1", np.array(V1, dtype=np.int64), IntegerValuationProfile.of)
+    v2 = persist("smV2", np.array(V2, dtype=np.int64), IntegerValuationProfile.of)
+    rule = persist_rule(("irving", zero), lambda: Irving(zero_indexed=zero))
     if with_profiles:
-        out = Irving(zero_indexed=zero).scf(v1, v2, StrictCompleteProfile.of(np.array(P1, dtype=rank_dtype)), StrictCompleteProfile.of(np.array(P2, dtype=rank_dtype)))
+        out = rule.scf(v1, v2, persist("smP1", np.array(P1, dtype=rank_dtype), StrictCompleteProfile.of), persist("smP2", np.array(P2, dtype=rank_dtype), StrictCompleteProfile.of))
     else:
-        out = Irving(zero_indexed=zero).scf(v1, v2)
+        out = rule.scf(v1, v2)
     return [[int(a), int(b)] for a, b in out]
 
 
